@@ -279,6 +279,7 @@ func (b *builder) replace(r *ast.ReturnStmt, g []guard, dry bool) ([]ast.Stmt, i
 	if !known {
 		return append(split(mkAssign()), cloneAST(m.consumer, b.c.n.back).(ast.Stmt)), retExit
 	}
+	b.knownFolds++
 	branch := m.consumer.Body.List
 	if !val {
 		branch = elseList(m.consumer)
